@@ -119,6 +119,7 @@ std::string gen_config(const Profile &p) {
   s += " sched=" + pick<std::string>({{4, "eager"}, {3, "starved"}, {3, "random"}});
   s += fmt(" sseed=%d", uni(1, 1000000));
   if (chance(15)) s += " spur=1";
+  if (chance(p.kind == "C15f" ? 100 : 20)) s += " iop=1";   // benign short reads/writes and EINTR (vfio.h); ignored by engines that do not know it
   return s;
 }
 
@@ -288,6 +289,8 @@ std::vector<std::pair<int, OpK>> weights_for(const std::string &kind) {
   if (kind == "C17")
     return {{26, PUT}, {8, DEL}, {6, BATCH}, {2, GET}, {12, FLUSH}, {12, CRANGE}, {3, COMPACT}, {12, REOPEN},
             {2, SNAP}, {1, RELEASE}, {1, ITER_NEW}, {1, ITER}, {1, CHECK}, {3, FILL}, {1, READS}};
+  if (kind == "C15f")   // the log through the real file layer: appends of all sizes, reopen (recovery, log reuse at arbitrary offsets)
+    return {{34, PUT}, {6, DEL}, {14, BATCH}, {4, GET}, {3, FLUSH}, {2, CRANGE}, {16, REOPEN}, {4, CHECK}, {2, FILL}};
   if (kind == "C14")
     return {{26, PUT}, {8, DEL}, {6, BATCH}, {3, GET}, {12, FLUSH}, {14, CRANGE}, {4, COMPACT}, {5, REOPEN},
             {3, SNAP}, {1, RELEASE}, {1, ITER_NEW}, {2, ITER}, {1, ITER_DEL}, {2, CHECK}, {3, FILL}, {2, READS}, {1, PROP}};
